@@ -257,7 +257,7 @@ impl Summary {
         let a = e["a"].as_str().unwrap_or("?");
         let api = e["api"].as_str().unwrap_or("-");
         let r = match e.get("r").and_then(|r| r.as_str()) {
-            Some("ok") | Some("some") | Some("none") | None => e.get("r").and_then(|r| r.as_str()).unwrap_or(""),
+            Some("ok") | Some("some") | Some("none") | Some("true") | Some("false") | None => e.get("r").and_then(|r| r.as_str()).unwrap_or(""),
             Some(_) => "err",
         };
         let key = if r.is_empty() { format!("{api}:{a}") } else { format!("{api}:{a}:{r}") };
